@@ -1,4 +1,353 @@
-use vsexp::{Lst, Sexp};
-pub fn run(_c: &Sexp) -> Sexp {
-    Lst(vec![])
+//! C08 — owner disposal releases exactly what the scope created, exactly once.
+//!
+//! case `(body ops)`: the root scope's body is run under a fresh root `Owner`; `ops` is a
+//! history of re-runs / cleanups / handle drops / notifications / task polls / allocations.
+//! Statements and ops are documented in coq/theories/Reactive/OwnerRun.v. Every dynamic entity
+//! (owner, effect, memo, handle, cleanup) is numbered in creation order.
+use crate::exec;
+use reactive_graph::{
+    computed::Memo,
+    effect::Effect,
+    owner::{on_cleanup, provide_context, use_context, verif_arena_len, Owner, StoredValue},
+    signal::{ArcTrigger, RwSignal},
+    traits::{Dispose, GetUntracked, GetValue, Notify, Track},
+};
+use std::cell::RefCell;
+use vsexp::{Lst, Num, Sexp};
+
+#[derive(Clone)]
+struct Cx<const N: usize>(i64);
+
+enum Handle {
+    Sig(RwSignal<i64>),
+    Stored(StoredValue<i64>),
+}
+
+#[derive(Default)]
+struct Ctx {
+    log: Vec<Sexp>,
+    /// per owner id: the handle the harness still holds (user scopes only) and the scope body
+    owners: Vec<(Option<Owner>, bool, Sexp)>,
+    effects: Vec<(Option<Effect<reactive_graph::owner::LocalStorage>>, ArcTrigger)>,
+    memos: Vec<(Memo<i64>, ArcTrigger)>,
+    handles: Vec<Handle>,
+    next_cid: usize,
+    keys: Vec<(u64, u64)>,
+}
+
+thread_local! {
+    static CTX: RefCell<Ctx> = RefCell::new(Ctx::default());
+}
+
+fn ctx<R>(f: impl FnOnce(&mut Ctx) -> R) -> R {
+    CTX.with(|c| f(&mut c.borrow_mut()))
+}
+
+fn log(e: Sexp) {
+    ctx(|c| c.log.push(e));
+}
+
+/// `NodeId(3v5)` inside the Debug rendering of a handle
+fn node_id(dbg: &str) -> (u64, u64) {
+    let i = dbg.find("NodeId(").expect("handle Debug shows its NodeId") + 7;
+    let rest = &dbg[i..];
+    let end = rest.find(')').unwrap();
+    let (a, b) = rest[..end].split_once('v').unwrap();
+    (a.parse().unwrap(), b.parse().unwrap())
+}
+
+fn opt(v: Option<i64>) -> Sexp {
+    match v {
+        None => Lst(vec![]),
+        Some(x) => Lst(vec![Num(x)]),
+    }
+}
+
+fn use_ty(ty: i64) -> Option<i64> {
+    match ty {
+        0 => use_context::<Cx<0>>().map(|c| c.0),
+        1 => use_context::<Cx<1>>().map(|c| c.0),
+        _ => use_context::<Cx<2>>().map(|c| c.0),
+    }
+}
+
+fn exec_body(body: &Sexp) {
+    for st in body.list() {
+        exec_stmt(st);
+    }
+}
+
+fn exec_stmt(st: &Sexp) {
+    match st.at(0).num() {
+        0 => {
+            let h = ctx(|c| c.handles.len()) as i64;
+            let s = RwSignal::new(h);
+            let k = node_id(&format!("{s:?}"));
+            ctx(|c| {
+                c.handles.push(Handle::Sig(s));
+                c.keys.push(k)
+            });
+        }
+        1 => {
+            let h = ctx(|c| c.handles.len()) as i64;
+            let s = StoredValue::new(h);
+            let k = node_id(&format!("{s:?}"));
+            ctx(|c| {
+                c.handles.push(Handle::Stored(s));
+                c.keys.push(k)
+            });
+        }
+        2 => {
+            let cid = ctx(|c| {
+                c.next_cid += 1;
+                c.next_cid - 1
+            });
+            on_cleanup(move || log(Lst(vec![Num(1), Num(cid as i64)])));
+        }
+        3 => {
+            let v = st.at(2).num();
+            match st.at(1).num() {
+                0 => provide_context(Cx::<0>(v)),
+                1 => provide_context(Cx::<1>(v)),
+                _ => provide_context(Cx::<2>(v)),
+            }
+        }
+        4 => {
+            let ty = st.at(1).num();
+            let r = use_ty(ty);
+            log(Lst(vec![Num(4), Num(ty), opt(r)]));
+        }
+        5 => {
+            let body = st.at(1).clone();
+            let o = Owner::new();
+            ctx(|c| c.owners.push((Some(o.clone()), true, body.clone())));
+            o.with(|| exec_body(&body));
+            drop(o);
+        }
+        6 => {
+            let body = st.at(1).clone();
+            let eid = ctx(|c| c.effects.len());
+            let trig = ArcTrigger::new();
+            ctx(|c| {
+                c.effects.push((None, trig.clone()));
+                c.owners.push((None, false, body.clone()));
+            });
+            let before = exec::spawned();
+            let e = Effect::new(move |_| {
+                trig.track();
+                log(Lst(vec![Num(2), Num(eid as i64)]));
+                exec_body(&body);
+            });
+            assert_eq!(exec::spawned(), before + 1, "one task per effect");
+            assert_eq!(before, eid, "task number = effect number");
+            let k = node_id(&format!("{e:?}"));
+            ctx(|c| {
+                c.effects[eid].0 = Some(e);
+                c.keys.push(k)
+            });
+        }
+        7 => {
+            let body = st.at(1).clone();
+            let mid = ctx(|c| c.memos.len());
+            let trig = ArcTrigger::new();
+            ctx(|c| c.owners.push((None, false, body.clone())));
+            let t2 = trig.clone();
+            let m = Memo::new(move |_| {
+                t2.track();
+                log(Lst(vec![Num(3), Num(mid as i64)]));
+                exec_body(&body);
+                0i64
+            });
+            let k = node_id(&format!("{m:?}"));
+            ctx(|c| {
+                c.memos.push((m, trig));
+                c.keys.push(k)
+            });
+        }
+        _ => {}
+    }
+}
+
+/// the handle of user scope `o`, if the harness still holds it
+fn user(o: i64) -> Option<(Owner, Sexp)> {
+    ctx(|c| {
+        c.owners.get(o as usize).and_then(|(h, user, b)| {
+            if *user {
+                h.clone().map(|h| (h, b.clone()))
+            } else {
+                None
+            }
+        })
+    })
+}
+
+fn statuses() -> Sexp {
+    let n = ctx(|c| c.handles.len());
+    let mut out = vec![];
+    for i in 0..n {
+        let v = ctx(|c| match &c.handles[i] {
+            Handle::Sig(s) => s.try_get_untracked(),
+            Handle::Stored(s) => s.try_get_value(),
+        });
+        out.push(Num(v.unwrap_or(-1)));
+    }
+    Lst(out)
+}
+
+fn obs() -> Sexp {
+    let l = ctx(|c| std::mem::take(&mut c.log));
+    Lst(vec![
+        Lst(l),
+        statuses(),
+        Sexp::from_nums(exec::ready().into_iter().map(|x| x as i64)),
+    ])
+}
+
+fn step(op: &Sexp) {
+    let a = op.at(1).num();
+    match op.at(0).num() {
+        10 => {
+            if let Some((o, b)) = user(a) {
+                o.with_cleanup(|| exec_body(&b));
+            }
+        }
+        11 => {
+            if let Some((o, _)) = user(a) {
+                o.cleanup();
+            }
+        }
+        12 => drop_owner(a),
+        13 => {
+            let t = ctx(|c| c.effects.get(a as usize).map(|e| e.1.clone()));
+            if let Some(t) = t {
+                t.notify();
+            }
+        }
+        14 => {
+            let t = ctx(|c| c.memos.get(a as usize).map(|m| m.1.clone()));
+            if let Some(t) = t {
+                t.notify();
+            }
+        }
+        15 => {
+            let m = ctx(|c| c.memos.get(a as usize).map(|m| m.0));
+            if let Some(m) = m {
+                let r = m.try_get_untracked();
+                log(Lst(vec![Num(5), Num(a), Sexp::bool(r.is_some())]));
+            }
+        }
+        16 => {
+            if a >= 0 && (a as usize) < exec::spawned() {
+                exec::poll(a as usize);
+            }
+        }
+        17 => {
+            exec::run_all(&op.at(1).nums(), 100_000);
+        }
+        18 => {
+            if let Some((o, _)) = user(a) {
+                let n = op.at(2).num();
+                o.with(|| {
+                    for _ in 0..n {
+                        exec_stmt(&Lst(vec![Num(1)]));
+                    }
+                });
+            }
+        }
+        19 => {
+            let n = ctx(|c| c.handles.len());
+            if a >= 0 && (a as usize) < n {
+                ctx(|c| match &c.handles[a as usize] {
+                    Handle::Sig(s) => s.dispose(),
+                    Handle::Stored(s) => s.dispose(),
+                });
+            }
+        }
+        23 => {
+            let m = ctx(|c| c.memos.get(a as usize).map(|m| m.0));
+            if let Some(m) = m {
+                m.dispose();
+            }
+        }
+        24 => {
+            let e = ctx(|c| c.effects.get(a as usize).and_then(|e| e.0));
+            if let Some(e) = e {
+                e.dispose();
+            }
+        }
+        20 => {
+            if let Some((o, _)) = user(a) {
+                o.pause();
+            }
+        }
+        21 => {
+            if let Some((o, _)) = user(a) {
+                o.resume();
+            }
+        }
+        22 => {
+            if let Some((o, _)) = user(a) {
+                let ty = op.at(2).num();
+                let r = o.with(|| use_ty(ty));
+                log(Lst(vec![Num(4), Num(ty), opt(r)]));
+            }
+        }
+        _ => {}
+    }
+}
+
+fn drop_owner(a: i64) {
+    // take the handle out first: dropping it may run cleanups that log
+    let h = ctx(|c| c.owners.get_mut(a as usize).and_then(|(h, _, _)| h.take()));
+    drop(h);
+}
+
+fn canon_keys(keys: &[(u64, u64)]) -> Sexp {
+    let mut seen: Vec<(u64, u64)> = vec![];
+    let mut out = vec![];
+    for (i, v) in keys {
+        match seen.iter().position(|p| p.0 == *i) {
+            Some(j) => out.push(Lst(vec![Num(j as i64), Num(((v - seen[j].1) / 2) as i64)])),
+            None => {
+                out.push(Lst(vec![Num(seen.len() as i64), Num(0)]));
+                seen.push((*i, *v));
+            }
+        }
+    }
+    Lst(out)
+}
+
+pub fn run(c: &Sexp) -> Sexp {
+    exec::reset();
+    CTX.with(|x| *x.borrow_mut() = Ctx::default());
+    let len0 = verif_arena_len();
+    let body = c.at(0).clone();
+    let root = Owner::new();
+    ctx(|x| x.owners.push((Some(root.clone()), true, body.clone())));
+    root.with(|| exec_body(&body));
+    drop(root);
+    let o0 = obs();
+    let mut trace = vec![];
+    for op in c.at(1).list() {
+        step(op);
+        trace.push(obs());
+    }
+    // end of the case: drop every scope handle still held, let the tasks end
+    let n = ctx(|x| x.owners.len());
+    for o in 0..n {
+        drop_owner(o as i64);
+    }
+    exec::run_all(&[], 100_000);
+    let l = ctx(|x| std::mem::take(&mut x.log));
+    let fin = Lst(vec![
+        Lst(l),
+        statuses(),
+        Num(verif_arena_len() as i64 - len0 as i64),
+        ctx(|x| canon_keys(&x.keys)),
+    ]);
+    let live = exec::live();
+    exec::reset();
+    CTX.with(|x| *x.borrow_mut() = Ctx::default());
+    assert_eq!(live, 0, "every effect task has ended once all scopes are gone");
+    Lst(vec![o0, Lst(trace), fin])
 }
